@@ -46,6 +46,17 @@ def litmus_shapes():
     add("MP+relfence+acqload", [[st("y", 1), fence("rel"), st("x", 1)], [ld("x", "acq"), ld("y")]])
     add("MP+relstore+acqfence", [[st("y", 1), st("x", 1, "rel")], [ld("x"), fence("acq"), ld("y")]])
     add("MP+wrongfence", [[st("y", 1), fence("acq"), st("x", 1)], [ld("x"), fence("rel"), ld("y")]])
+    # a spawn in the middle of the program: the child starts from what its parent has SEEN (spawn edge), it does not
+    # inherit the parent's release fence (its relaxed stores publish nothing) nor anything the parent does afterwards
+    for f in ["rel", "acqrel", "sc"]:
+        out.append({"threads": [[spawn(2), st("y", 1), fence(f), spawn(3), join(2), join(3)], [ld("x", "acq"), ld("y")], [st("x", 1)]],
+                    "name": f"spawn-after-fence[{f}]", "tags": ["litmus"]})
+    out.append({"threads": [[spawn(2), st("y", 1, "rel"), spawn(3), join(2), join(3)], [ld("x", "acq"), ld("y")], [st("x", 1)]],
+                "name": "spawn-after-relstore", "tags": ["litmus"]})
+    out.append({"threads": [[spawn(2), st("y", 1), spawn(3), st("y", 2), join(2), join(3)], [ld("x", "acq"), ld("y")], [st("x", 1, "rel")]],
+                "name": "spawn-edge-publishes-earlier-writes-only", "tags": ["litmus"]})
+    out.append({"threads": [[spawn(2), ld("y", "acq"), fence("acq"), spawn(3), join(2), join(3)], [st("z", 1), st("y", 1, "rel")], [ld("z")]],
+                "name": "spawn-after-acquire", "tags": ["litmus"]})
     # store buffering
     for (w1, r1), (w2, r2) in itertools.product([("rlx", "rlx"), ("rel", "acq"), ("sc", "sc")], repeat=2):
         add(f"SB[{w1},{r1};{w2},{r2}]", [[st("x", 1, w1), ld("y", r1)], [st("y", 1, w2), ld("x", r2)]])
@@ -127,6 +138,24 @@ def litmus_thorough_shapes():
     add("IRIW+scfences", [[st("x", 1)], [st("y", 1)], [ld("x"), fence("sc"), ld("y")], [ld("y"), fence("sc"), ld("x")]])
     add("CoRR2", [[st("x", 1)], [st("x", 2)], [ld("x"), ld("x")], [ld("x"), ld("x")]], ["x"])
     add("3W", [[st("x", 1)], [st("x", 2)], [st("x", 3), ld("x")]], ["x"])
+    return out
+
+
+def long_history_shapes():
+    """more stores to one location than loom's store history holds (MAX_ATOMIC_HISTORY = 7): old values become
+    unreadable (outside C02's proviso), but whatever IS returned must still be consistent (C03 has no such proviso)"""
+    out = []
+    for n in (7, 8, 9, 13, 15):
+        w = [st("d", 1)] + [st("f", v, "rel") for v in range(1, n + 1)]
+        out.append(wrap([w, [ld("f"), fence("acq"), ld("d")]], [], name=f"long-history-fence[{n}]", tags=["litmus"]))
+        out.append(wrap([w, [ld("f", "acq"), ld("d")]], [], name=f"long-history-acqload[{n}]", tags=["litmus"]))
+    for n in (8, 10):
+        w = [st("d", 1)] + [st("f", v, "rel") for v in range(1, n + 1)]
+        out.append(wrap([w, [ld("f"), ld("f"), fence("acqrel"), ld("d")]], [], name=f"long-history-2loads-fence[{n}]", tags=["litmus"]))
+        out.append(wrap([[st("d", 1)] + [swap("f", v, "rel") for v in range(1, n + 1)], [ld("f"), fence("acq"), ld("d")]], [],
+                        name=f"long-history-swaps-fence[{n}]", tags=["litmus"]))
+        out.append({"threads": [[spawn(2), spawn(3), join(2), join(3)], [wr("c")] + [st("f", v, "rel") for v in range(1, n + 1)],
+                                [ld("f"), br(1, n, 2), fence("acq"), rd("c")]], "name": f"long-history-fence-cell[{n}]", "tags": ["litmus"]})
     return out
 
 
@@ -592,6 +621,14 @@ def race_idioms():
     A(P("chan-racy", [spawn(2), L("tryrecv", "ch"), rd("c"), join(2), L("droprx", "ch")], [wr("c"), L("send", "ch", v=1)]))
     A(P("chan-2msg-ok", [spawn(2), spawn(3), L("recv", "ch"), L("recv", "ch"), rd("c"), rd("d"), join(2), join(3), L("droprx", "ch")],
         [wr("c"), L("send", "ch", v=1)], [wr("d"), L("send", "ch", v=2)]))
+    # RwLock hand-over: EVERY reader's release is acquired by the next writer, also a reader that is not the last one out
+    RDc = lambda *b: [L("read", "l")] + list(b) + [L("unlockr", "l")]
+    WRc = lambda *b: [L("write", "l")] + list(b) + [L("unlockw", "l")]
+    A(P("rw-2readers-writer-ok", sj(3) + jj(3), RDc(rd("c"), ld("x")), RDc(rd("c"), ld("x")), WRc(wr("c"))))
+    A(P("rw-2readers-writer-ok-yield", sj(3) + jj(3), RDc(rd("c"), I("yield")), RDc(I("yield"), rd("c")), WRc(wr("c"))))
+    A(P("rw-writer-then-readers-ok", sj(3) + jj(3), WRc(wr("c")), RDc(rd("c"), ld("x")), RDc(ld("x"), rd("c"))))
+    A(P("rw-reader-outside-racy", sj(3) + jj(3), RDc(ld("x")) + [rd("c")], RDc(rd("c"), ld("x")), WRc(wr("c"))))
+    A(P("rw-writer-writer-ok", sj(2) + jj(2), WRc(wr("c"), ld("x")), WRc(ld("x"), wr("c"))))
     # park / unpark (the parker blocks nowhere else)
     A(P("park-ok", [spawn(3), spawn(2), join(2), join(3)], [wr("c"), unpark(3)], [L("park"), rd("c")]))
     A(P("park-racy", [spawn(3), spawn(2), join(2), join(3)], [wr("c"), unpark(3)], [rd("c"), L("park")]))
@@ -1251,6 +1288,24 @@ def panic_base():
     A(P("pb-read-inside-own-write-late", SJ(2) + JJ(2), [st("x", 1, "rel")], [ld("x", "acq"), br(1, 1, 1), L("wrrd", "c")]))
     A(P("pb-3threads", SJ(3) + JJ(3), [fadd("x", 1, "acqrel")], [fadd("x", 2, "acqrel")], CS("m", ld("x"))))
     return out
+
+
+def limit_crash_programs():
+    """programs for which a LIMIT violation (max_threads, max_branches) strikes while loom objects are owned by the
+    closure being spawned, by frames, or by guards: the violation must come out as a panic all the same"""
+    keep = ("pb-arc-moved-into-unstarted-thread", "pb-track-moved-into-unstarted-thread", "pb-receiver-moved-into-unstarted-thread",
+            "pb-arc-in-frame", "pb-mutex-held", "pb-rw-guards", "pb-nested-locks", "pb-guard-plain")
+    out = [p for p in panic_base() if p["name"] in keep]
+    a2 = {"A": {"h0": ["a1", "a2"], "cell": ""}}
+    a3 = {"A": {"h0": ["a1", "a2", "a3"], "cell": ""}}
+    # the LAST spawn is the one that exceeds a max_threads of (threads - 1)
+    out.append(P("lim-second-spawn-owns-arc", [spawn(2), I("spawn", "a2", v=3), ld("x"), L("adrop", "a1"), join(2), join(3)], [ld("x")],
+                 [ld("x"), L("adrop", "a2")], arcs=a2))
+    out.append(P("lim-spawn-owns-arc-while-lock-held", [L("lock", "m"), I("spawn", "a2", v=2), ld("x"), L("unlock", "m"), L("adrop", "a1"), join(2)],
+                 [ld("x"), L("adrop", "a2")], arcs=a2))
+    out.append(P("lim-nested-spawn-owns-arc", [spawn(2), ld("x"), L("adrop", "a1"), join(2)],
+                 [I("spawn", "a3", v=3), ld("x"), L("adrop", "a2"), join(3)], [ld("x"), L("adrop", "a3")], arcs=a3))
+    return [normalize(p) for p in out]
 
 
 def crash_points(tier, seed):
